@@ -79,6 +79,16 @@ func runC10(p *Program, r *Result) {
 		checkLoneScan(p, r, fn)
 	}
 
+	// ---- R10.7: the only-stanza check sees the whole header
+	r.Rule("R10.7", "Decrypt hands every stanza of the header to the identity, so that the only-stanza check sees company wherever it stands (= R01.1b)", 1)
+	if dec := r.anchor(pkgAge, "", "Decrypt"); dec != nil {
+		if uws := callsTo(dec, "invoke (filippo.io/age.Identity).Unwrap"); len(uws) == 1 {
+			checkAllStanzasOffered(p, r, dec, uws[0])
+		} else {
+			r.Unk(dec.String(), "call:Unwrap:stanzas", "", "expected exactly one Identity.Unwrap invoke in Decrypt")
+		}
+	}
+
 	// ---- R10.3
 	r.Rule("R10.3", "work factor validated against the configured maximum before scrypt.Key", 1)
 	workFactorPattern := checkScryptWorkBound(p, r, idunwrap)
@@ -178,13 +188,24 @@ func checkLoneScan(p *Program, r *Result, fn *ssa.Function) {
 		r.Bad(sub, "scan", "", "no loop over all stanzas returns a non-sentinel error under exactly Type==\"scrypt\" && len(stanzas)!=1 (extra conditions would let some positions through)")
 		return
 	}
-	// the loop must be left only through its header (no break) or by returns
-	if len(p.loopEarlyExits(scan)) != 0 {
-		r.Bad(sub, "scan", r.pos(scanRet), "the scan loop can be left early (break): later stanzas would not be examined")
-		return
+	// the loop must be left only through its header (no break) or by returns; a second way out is
+	// harmless where there is nothing left to examine (len(stanzas) == 1 on that path) or where
+	// it refuses (a non-nil error)
+	single := func(b *ssa.BasicBlock) bool {
+		_, ok := hasFactShort(tb.FactsAt(b), "len(P1) == 1")
+		return ok
+	}
+	for _, b := range p.loopEarlyExits(scan) {
+		if !single(b) {
+			r.Bad(sub, "scan", r.pos(scanRet), "the scan loop can be left early (break): later stanzas would not be examined")
+			return
+		}
 	}
 	for _, ret := range returnsOf(fn) {
 		if ret != scanRet && scan.inLoop(ret.Block()) {
+			if single(ret.Block()) || len(ret.Results) == 2 && isNilConst(ret.Results[0]) && p.definitelyNonNil(stripConv(ret.Results[1]), 0) {
+				continue
+			}
 			r.Bad(sub, "scan", r.pos(ret), "the scan loop has a second exit")
 			return
 		}
